@@ -65,3 +65,12 @@ def runStream (sd : StreamDef) : IO Unit := do
   stdout.flush
 
 end Drv
+
+/-- entry point shared by the family drivers: `lvdriver-<family> <stream> < ops` -/
+def Drv.mainWith (table : List (String × Drv.StreamDef)) (args : List String) : IO UInt32 := do
+  match args with
+  | [name] =>
+    match table.lookup name with
+    | some sd => Drv.runStream sd; return 0
+    | none => IO.eprintln s!"unknown stream {name}"; return 2
+  | _ => IO.eprintln "usage: lvdriver-<family> <stream> < ops"; return 2
